@@ -13,6 +13,7 @@ func init() {
 }
 
 func runC08(p *Prog, r *Report) {
+	crossCutting(p, r, "C08.X", "protocol/xbus", "protocol/xstar", "protocol/bus", "protocol/star")
 	lockBalance(p, r, "C08.8/E1", "protocol/xbus", "protocol/xstar")
 	q := NewQ(p, r)
 	R := "C08.1/bus-send"
